@@ -818,6 +818,36 @@ fn mutprov() {
     println!("mutprov: every mutable view accepted the writes");
 }
 
+fn on_small_stack<F: FnOnce() + Send + 'static>(f: F) {
+    std::thread::Builder::new().stack_size(256 * 1024).spawn(f).unwrap().join().unwrap();
+}
+
+fn stack_probe(scenario: &str) {
+    macro_rules! build {
+        ($t:ty, $n:ty, $mk:expr) => {{
+            on_small_stack(|| {
+                let mk = $mk;
+                let total: usize = match scenario_kind() {
+                    0 => { let b: Box<GenericArray<$t, $n>> = <Box<GenericArray<$t, $n>> as GenericSequence<$t>>::generate(|i| mk(i)); std::hint::black_box(&b); b.len() }
+                    1 => { let b: Box<GenericArray<$t, $n>> = GenericArray::<$t, $n>::try_boxed_from_iter((0..<$n as Unsigned>::USIZE).map(|i| mk(i))).ok().unwrap(); std::hint::black_box(&b); b.len() }
+                    2 => { let b: Box<GenericArray<$t, $n>> = (0..<$n as Unsigned>::USIZE).map(|i| mk(i)).collect(); std::hint::black_box(&b); b.len() }
+                    3 => { let b: Box<GenericArray<$t, $n>> = <Box<GenericArray<$t, $n>> as GenericSequence<$t>>::generate(|i| mk(i)); let c: Box<GenericArray<$t, $n>> = b.map(|x| x); std::hint::black_box(&c); c.len() }
+                    _ => unreachable!(),
+                };
+                assert_eq!(total, <$n as Unsigned>::USIZE);
+            });
+        }};
+    }
+    STACK_SCEN.store(match scenario { "stack.box_generate" => 0, "stack.try_boxed_from_iter" => 1, "stack.box_from_iter" => 2, "stack.box.map" => 3, _ => 0 }, std::sync::atomic::Ordering::SeqCst);
+    build!([u64; 2048], U64, |i: usize| [i as u64; 2048]);      // 1 MiB, 64 elements of 16 KiB
+    build!([u8; 4096], U128, |i: usize| [i as u8; 4096]);       // 512 KiB
+    build!([u64; 128], U1024, |i: usize| [i as u64; 128]);      // 1 MiB
+    build!(u64, U65536, |i: usize| i as u64);                   // 512 KiB of plain words
+    build!([u8; 1024], U4096, |i: usize| [i as u8; 1024]);      // 4 MiB
+}
+static STACK_SCEN: std::sync::atomic::AtomicU8 = std::sync::atomic::AtomicU8::new(0);
+fn scenario_kind() -> u8 { STACK_SCEN.load(std::sync::atomic::Ordering::SeqCst) }
+
 fn main() {
     let args: Vec<String> = std::env::args().collect();
     if args[1] == "mutprov" && args.get(2).map(|s| s.as_str()) != Some("semantic") { mutprov(); return; }
@@ -827,6 +857,14 @@ fn main() {
             Some(msg) => { println!("REPRODUCED scenario={} {msg}", args[1]); std::process::exit(1) }
             None => { println!("NOT-REPRODUCED scenario={}: out-of-bounds remove panics and drops every element once for N <= 4", args[1]); return; }
         }
+    }
+    if args[1].starts_with("stack.") {
+        // C15: the boxed constructors build arrays far larger than the thread's stack. Each construction runs on a thread with a 256 KiB
+        // stack; an implementation that takes the array through a stack frame dies here (SIGSEGV / abort: reported by the caller as
+        // "the native run died"). Elements are small (<= 4 KiB) so that the generator's own return slot is not what overflows.
+        stack_probe(&args[1]);
+        println!("NOT-REPRODUCED scenario={} kind=stack: arrays of 0.5 - 4 MiB (N in 64..=65536, elements of 1 B - 16 KiB) built on a 256 KiB stack", args[1]);
+        return;
     }
     if args[1].starts_with("heap.") {
         match heap_sweep(&args[1], &args[2]) {
